@@ -1172,6 +1172,9 @@ func rangeIter(i *interpreter, x value, t types.Type) iter {
 		if i.acc != nil && x != nil {
 			i.logAccess(x, false)
 		}
+		if i.mapRev && x != nil {
+			return &omapIter{m: x, rev: true, pos: len(x.entries) - 1}
+		}
 		return &omapIter{m: x}
 	case string:
 		return &stringIter{Reader: strings.NewReader(x)}
